@@ -262,6 +262,26 @@ class Model:
                     except AnalysisError:
                         pass
 
+    def pinned(self):
+        """True when every module of the package is byte-identical to the tree the instance floors were confirmed on
+        (sa/pinned.json, written by ``python -m sa.registry``).  On that tree an instance that cannot be located means the
+        checker has rotted (ANALYSIS-ERROR); on any other tree it means the code was restructured, and the honest answer for
+        that one instance is *undecided*."""
+        import hashlib, json
+        if getattr(self, '_pinned', None) is None:
+            path = os.path.join(os.path.dirname(os.path.abspath(__file__)), 'pinned.json')
+            try:
+                with open(path) as f:
+                    want = json.load(f)
+            except (OSError, ValueError):
+                want = None
+            if not want:
+                self._pinned = True     # no reference recorded: stay strict
+            else:
+                got = {m.relpath: hashlib.sha256(self.read(m.relpath).encode('utf-8')).hexdigest() for m in self.modules.values()}
+                self._pinned = all(got.get(k) == v for k, v in want.items()) and set(got) == set(want)
+        return self._pinned
+
     def normal(self):
         """the same tree (same checkout, same overrides) in the normal form: lets a check that reads the tree as written
         evaluate single rules on the normal form of a function (rule-by-rule porting)."""
